@@ -217,9 +217,10 @@ func C02(o *world.Obs) *Result {
 					src.Serial, reason, SummarizeExchange(o, ex))
 			default:
 				r.Label("required:" + reason + ":304")
-				// (with a client-supplied conditional the stored validators still have to be the
-				// ones that were validated - judged when the stored reply has an entity tag)
-				if d := validatorsOK(o, ex, src, v304); d != "" && (!HasClientConditional(ex.Req) || src.RespHdr.Get("Etag") != "") {
+				// (a client-supplied precondition changes nothing: the 304 that validates the stored
+				// reply answers a request carrying the stored validators and no others - a 304
+				// triggered by the client's own entity tag says nothing about the stored reply)
+				if d := validatorsOK(o, ex, src, v304); d != "" {
 					r.Fail("C02", "wrong-validators", ex.Idx, "validation request for s%d: %s; %s", src.Serial, d, SummarizeExchange(o, ex))
 				}
 			}
